@@ -21,6 +21,15 @@ fn main() {
         print!("{}", vcheck::fuzzapi::dictionary());
         return;
     }
+    if id == "POISON" {
+        // what every interlude does when run alone on a big-stack thread
+        vcheck::run::install_panic_hook();
+        let lines = std::thread::Builder::new().stack_size(1 << 30).spawn(vcheck::poison::self_test).unwrap().join().unwrap();
+        for l in lines {
+            println!("{}", l);
+        }
+        return;
+    }
     if id == "C10CHILD" {
         let seed: u64 = args.get(2).and_then(|s| s.parse().ok()).unwrap_or(0);
         let n: usize = args.get(3).and_then(|s| s.parse().ok()).unwrap_or(0);
